@@ -262,3 +262,42 @@ MUTANTS += [
          why="correct column-blocked matrix above 300 targets that evaluates the window argument as b*(log f - log fc) (differs from "
              "b*log(f/fc) by rounding only: inside the conditioning bound): no alarm"),
 ]
+
+# ---------------------------------------------------------------------------
+# survivors of the audit (notes/audit/C07.md, section 5)
+MUTANTS += [
+    dict(id="c07-audit-A-bandwidth-reads-private-buffer", prop="C07", file="eqsig/im.py", count=3,
+         old="    fas1_smooth = asig.smooth_fa_spectrum\n", new="    fas1_smooth = asig._smooth_fa_spectrum\n",
+         why="audit A: calc_bandwidth_freqs / f_min / f_max read the private buffer: wrong / IndexError when nothing has read the "
+             "smoothed spectrum since the object was built or a setter was used"),
+    dict(id="c07-audit-A2-freq-range-reads-private-buffer", prop="C07", file="eqsig/fns/frequency.py",
+         old="    indices = get_sig_array_indexes_range(asig.smooth_fa_spectrum, ratio=ratio)",
+         new="    indices = get_sig_array_indexes_range(asig._smooth_fa_spectrum, ratio=ratio)",
+         why="audit A: get_sig_freq_range reads the private buffer (cold cache)"),
+    dict(id="c07-audit-B-custom-matrix-reads-private-fas", prop="C07", file="eqsig/fns/frequency.py",
+         old="    return np.dot(abs(asig.fa_spectrum[1:]), smooth_matrix)",
+         new="    return np.dot(abs(asig._fa_spectrum[1:]), smooth_matrix)",
+         why="audit B: custom-matrix form reads the private Fourier buffer: TypeError on an object whose spectrum was never read"),
+    dict(id="c07-audit-C-zero-bins-skipped-long", prop="C07", file="eqsig/fns/frequency.py", old=_DIRECT_HEAD,
+         new=_direct_with(
+             "    if len(fa_frequencies) > 2000:\n"
+             "        keep = abs(fa_spectrum) > 0\n"
+             "        if np.any(keep):\n"
+             "            fa_frequencies, fa_spectrum = fa_frequencies[keep], fa_spectrum[keep]\n"),
+         why="audit C: above 2000 bins zero-amplitude bins are dropped before the window is normalised"),
+    dict(id="c07-audit-D-tolerant-zero-bin", prop="C07", file="eqsig/fns/frequency.py", count=2,
+         old="    if fa_frequencies[0] == 0:\n", new="    if fa_frequencies[0] < 1e-6:\n",
+         why="audit D: a first frequency below 1e-6 Hz is treated as the 0 Hz bin"),
+    dict(id="c07-audit-E-small-size-length-keyed-cache", prop="C07", file="eqsig/single.py",
+         old="        if smooth_fa_freqs is not None:\n            self._smooth_fa_freqs = smooth_fa_freqs\n"
+             "        self._smooth_fa_spectrum = calc_smooth_fa_spectrum(self.fa_freqs,",
+         new="        if smooth_fa_freqs is not None:\n            self._smooth_fa_freqs = smooth_fa_freqs\n"
+             "        key = (len(self.fa_freqs), len(self.smooth_fa_freqs), band)\n"
+             "        if len(self.fa_freqs) * len(self.smooth_fa_freqs) < 100000 and getattr(self, '_smooth_key', None) == key:\n"
+             "            self._cached_smooth_fa = True\n"
+             "            return\n"
+             "        self._smooth_key = key\n"
+             "        self._smooth_fa_spectrum = calc_smooth_fa_spectrum(self.fa_freqs,",
+         why="audit E: below 1e5 pairs the smoothed spectrum is kept while sizes and band are unchanged: stale after other targets / "
+             "values of the same length"),
+]
